@@ -37,6 +37,7 @@ type BuiltOp struct {
 	Denom   string
 	StreamR, StreamS Addr
 	IsFeeOp bool // WRKChain/BEACON operation that carries a protocol fee
+	LiveTarget bool // the referenced entity exists (the op would be meaningful for the entitled party)
 }
 
 // BuiltTx is a transaction ready to be delivered.
@@ -192,6 +193,7 @@ func (w *World) buildOp(op *Op) *BuiltOp {
 		spelling := named.Str(op.Upper)
 		b.Msg = &enttypes.MsgUndPurchaseOrder{Purchaser: spelling, Amount: sdk.Coin{Denom: denom, Amount: toInt(amt)}}
 		b.Expect = w.Ent.ExpectRaise(named.Key())
+		b.LiveTarget = true
 		b.Desc = fmt.Sprintf("raise %s%s by %s", amt, denom, named.Name)
 		b.Apply = func(w *World) { w.Ent.ApplyRaise(named.Key(), spelling, amt, denom, now) }
 	case EntDecide:
@@ -216,6 +218,9 @@ func (w *World) buildOp(op *Op) *BuiltOp {
 		named := b.Named
 		b.Msg = &enttypes.MsgProcessUndPurchaseOrder{PurchaseOrderId: id, Decision: dec, Signer: named.Str(op.Upper)}
 		b.Expect = w.Ent.ExpectDecide(named.Key(), id)
+		if o := w.Ent.Order(id); o != nil && o.Status == StRaised {
+			b.LiveTarget = true
+		}
 		acc := op.Flag
 		b.Desc = fmt.Sprintf("decide order %d accept=%v by %s upper=%v actor=%d peer=%d", id, acc, named.Name, op.Upper, op.Actor, op.Peer)
 		b.Apply = func(w *World) { w.Ent.ApplyDecide(named.Key(), id, acc, now) }
@@ -236,6 +241,7 @@ func (w *World) buildOp(op *Op) *BuiltOp {
 		named := b.Named
 		b.Msg = &enttypes.MsgWhitelistAddress{Address: target.Str(op.Upper), Signer: named.Str(false), Action: action}
 		b.Expect = w.Ent.ExpectWhitelist(named.Key())
+		b.LiveTarget = true
 		add := op.Flag
 		b.Desc = fmt.Sprintf("whitelist add=%v %s by %s", add, target.Name, named.Name)
 		b.Apply = func(w *World) { w.Ent.ApplyWhitelist(target.Key(), add) }
@@ -279,6 +285,7 @@ func (w *World) buildOp(op *Op) *BuiltOp {
 			setParties(w.acct(op.Peer))
 		}
 		b.ID = id
+		b.LiveTarget = reg != nil
 		named := b.Named
 		if op.Kind == WrkRec {
 			last := uint64(0)
@@ -337,6 +344,7 @@ func (w *World) buildOp(op *Op) *BuiltOp {
 			setParties(w.acct(op.Peer))
 		}
 		b.ID = id
+		b.LiveTarget = reg != nil
 		named := b.Named
 		var n uint64
 		room := uint64(0)
@@ -410,6 +418,7 @@ func (w *World) buildOp(op *Op) *BuiltOp {
 			send = b.Named
 		}
 		b.StreamR, b.StreamS = recv, send
+		b.LiveTarget = s != nil
 		nowMs := w.NowMs()
 		switch op.Kind {
 		case StrClaim:
@@ -511,6 +520,7 @@ func (w *World) buildOp(op *Op) *BuiltOp {
 		setParties(w.acct(op.Peer))
 		b.Module = "params"
 		b.Msg = w.paramsMsg(op, b.Named)
+		b.LiveTarget = true
 		if op.P == nil || op.P.Authority != 0 {
 			b.Expect = reject("parameter update not issued by the governance authority", "C13")
 		}
